@@ -40,6 +40,7 @@
 -/
 import GojaModel.Base.Proto
 import GojaModel.C17.Model
+import GojaModel.C17.Hex
 
 namespace GojaModel.C17.Driver
 open GojaModel.Proto GojaModel.C17
@@ -254,9 +255,31 @@ def showState (s : State) : String :=
 /-- runtime self-check of `access_in_bounds` on the executed op (the theorem says this never fires). -/
 def touchesOk (s : State) : Bool := s.log.all (·.ok)
 
+def showHexRes : HexRes → String
+  | .bad => "BAD-OP"
+  | .errType => "E:Type"
+  | .errSyntax => "E:Syntax"
+  | .str cs => "hex:" ++ (if cs.isEmpty then "-" else String.ofList cs)
+  | .rw r w => "rw " ++ toString r ++ " " ++ toString w
+  | .view n => "view 0 " ++ toString n
+
+/-- the Uint8Array hex methods (Hex.lean): `h <v>` toHex, `H <v> <chars|->` setFromHex, `x <chars|->` fromHex -/
+def hexLine (s : State) (ws : List String) : Option (HexRes × State) :=
+  let chars (t : String) : List Char := if t == "-" then [] else t.toList
+  match ws with
+  | ["h", v] => v.toNat?.map (fun vi => opToHex { s with log := [] } vi)
+  | ["H", v, t] => v.toNat?.map (fun vi => opSetFromHex { s with log := [] } vi (chars t))
+  | ["x", t] => some (opFromHex { s with log := [] } (chars t))
+  | _ => none
+
 def stepLine (s : State) (line : String) : State × String :=
   let ws := words line
   if ws == ["N"] then ({}, "ok |") else
+  match hexLine s ws with
+  | some r =>
+    let flag := if touchesOk r.2 then "" else " MODEL-TOUCH-OUT-OF-BOUNDS"
+    ({ r.2 with log := [] }, showHexRes r.1 ++ " | " ++ showState r.2 ++ flag)
+  | none =>
   match parseOp ws with
   | none => (s, "PARSE-ERROR")
   | some op =>
